@@ -29,6 +29,8 @@ type variant struct {
 	Workers, Batch, Buffer, Readers, Gomaxprocs int
 	Reverse                                     bool `json:",omitempty"`
 	Resplit                                     int  `json:",omitempty"` // re-divide all lines among this many files
+	ShortPieces                                 bool `json:",omitempty"` // with Resplit: the first line alone (a file of a few bytes), an empty file, the rest
+	ForceZ                                      bool `json:",omitempty"` // pass -z although no file is gzip: plain files are read from their first byte
 	Stdin                                       bool `json:",omitempty"` // feed the concatenated input on standard input
 	StdinPauseMs                                int  `json:",omitempty"` // pause in the middle of standard input (forces the 250 ms time flush)
 	StdinBursts                                 int  `json:",omitempty"` // with StdinPauseMs: number of bursts the input is cut into (default 2); every pause lets the 100 ms refresh render mid-stream
@@ -136,6 +138,14 @@ func runVariant(in c03In, v variant, dir string) runObs {
 	}
 	switch {
 	case v.Stdin:
+	case v.Resplit > 0 && v.ShortPieces:
+		first, rest := all, []byte(nil)
+		if i := bytes.IndexByte(all, '\n'); i >= 0 {
+			first, rest = all[:i+1], all[i+1:]
+		}
+		write("part0.log", first, false)
+		write("part1.log", nil, false)
+		write("part2.log", rest, false)
 	case v.Resplit > 0:
 		lines := bytes.SplitAfter(all, []byte("\n"))
 		chunks := make([][]byte, v.Resplit)
@@ -161,7 +171,7 @@ func runVariant(in c03In, v variant, dir string) runObs {
 		args = append(args, "--csv", "-")
 	}
 	args = append(args, "--workers", fmt.Sprint(v.Workers), "--batch", fmt.Sprint(v.Batch), "--batch-buffer", fmt.Sprint(v.Buffer), "--readers", fmt.Sprint(v.Readers))
-	if anyGz {
+	if anyGz || (v.ForceZ && !v.Stdin) {
 		args = append(args, "-z")
 	}
 	args = append(args, in.Args...)
@@ -344,6 +354,12 @@ func mkCase(in c03In, idx int) Case {
 		if v.StdinPauseMs > 0 {
 			tags = append(tags, "stdin-pause(time-flush)")
 		}
+		if v.ForceZ {
+			tags = append(tags, "-z-over-plain-files")
+		}
+		if v.ShortPieces {
+			tags = append(tags, "one-line-file+empty-file")
+		}
 		if v.StdinBursts > 2 {
 			tags = append(tags, "stdin-bursts(mid-stream-refresh)")
 		}
@@ -375,7 +391,9 @@ func mkCase(in c03In, idx int) Case {
 }
 
 var keyAlpha = []string{"a", "b", "cc", "key,with,commas", "say \"hi\"", " lead", "é", "x-y", "0", "10", "9", "tab\tin",
-	"--verbose", "-", "@admin", "=1+1", "+1 (555) 0100", "-5", "'quoted", "\tlead-tab"}
+	"--verbose", "-", "@admin", "=1+1", "+1 (555) 0100", "-5", "'quoted", "\tlead-tab",
+	// distinct keys that are the same number (the numeric sorters must still order them deterministically)
+	"7", "07", "7.0", "+7", "1e1", "10.0", "00", "-5.0"}
 
 func genIn(r *Rng) c03In {
 	cmd := Pick(r, []string{"histo", "histo", "tabulate", "heatmap", "spark", "bargraph", "analyze", "reduce"})
@@ -485,6 +503,8 @@ func genIn(r *Rng) c03In {
 		case 3:
 			if orderFree {
 				v.Resplit = 1 + r.Intn(4)
+				v.ShortPieces = r.Chance(1, 3)
+				v.ForceZ = r.Chance(1, 2) // -z over plain pieces, some shorter than a gzip header or empty
 			}
 		case 4:
 			if len(in.Files) == 1 && !in.Files[0].Gzip {
